@@ -15,16 +15,32 @@ FORBIDDEN = re.compile(r'\b(Admitted|admit|Axiom|Axioms|Parameter|Parameters|Con
 MUH_TLSF = ['basic', 'gran', 'align', 'malformed', 'niltag', 'fill', 'churn']
 MUH_LIN = ['basic', 'upper', 'ring', 'compact', 'malformed', 'niltag', 'gran']
 
+VAMH_ALL = ['basic', 'map', 'pools', 'limits', 'defrag', 'gran', 'malformed', 'teardown']
+
+# per property: muh = {algo: profiles}; eng = {engine: profiles} (generic engines, ENGINES.md);
+# vamh = dict(profiles=[...], faults=[profiles], race=bool, extra=[other property ids whose vamh
+# oracle signatures also count for this property])
 PROPS = {
-    'C01': dict(title='suballocations exclusive, in-bounds, aligned', muh={'tlsf': MUH_TLSF, 'linear': MUH_LIN}),
-    'C03': dict(title='block bookkeeping matches contents', muh={'tlsf': MUH_TLSF, 'linear': MUH_LIN}),
-    'C05': dict(title='TLSF never reports full while a fitting range exists', muh={'tlsf': MUH_TLSF}),
-    'C06': dict(title='free removes exactly the freed allocation', muh={'tlsf': MUH_TLSF, 'linear': MUH_LIN}),
-    'C09': dict(title='conflicting kinds never share a page', muh={'tlsf': ['gran', 'basic'], 'linear': ['gran', 'upper', 'ring']}),
-    'C13': dict(title='errors, never panics; refusal changes nothing', muh={'tlsf': MUH_TLSF, 'linear': MUH_LIN}),
-    'C16': dict(title='linear = stack / double stack / ring buffer', muh={'linear': MUH_LIN}),
-    'C17': dict(title='handles resolve to own allocation; enumeration exact', muh={'tlsf': MUH_TLSF, 'linear': MUH_LIN}),
-    'C18': dict(title='free space coalesced; emptied block as good as new', muh={'tlsf': MUH_TLSF, 'linear': MUH_LIN}),
+    'C01': dict(muh={'tlsf': MUH_TLSF, 'linear': MUH_LIN}),
+    'C02': dict(vamh=dict(profiles=VAMH_ALL), muh={'tlsf': ['basic', 'align'], 'linear': ['basic', 'upper']}),
+    'C03': dict(muh={'tlsf': MUH_TLSF, 'linear': MUH_LIN}, vamh=dict(profiles=['basic', 'pools', 'defrag'])),
+    'C04': dict(vamh=dict(profiles=VAMH_ALL, faults=['basic', 'pools']), eng={'devh': ['budget']}),
+    'C05': dict(muh={'tlsf': MUH_TLSF}),
+    'C06': dict(muh={'tlsf': MUH_TLSF, 'linear': MUH_LIN}),
+    'C07': dict(vamh=dict(profiles=['defrag', 'pools', 'gran']), eng={'dfh': None}),
+    'C08': dict(vamh=dict(profiles=VAMH_ALL), eng={'devh': ['sync']}),
+    'C09': dict(muh={'tlsf': ['gran', 'basic'], 'linear': ['gran', 'upper', 'ring']}, vamh=dict(profiles=['gran', 'defrag'])),
+    'C10': dict(vamh=dict(profiles=['basic'], faults=['basic', 'map', 'pools', 'limits', 'defrag']), eng={'devh': None}),
+    'C11': dict(vamh=dict(profiles=['limits', 'pools', 'basic']), eng={'devh': ['budget']}),
+    'C12': dict(vamh=dict(profiles=['basic'], race=True)),
+    'C13': dict(muh={'tlsf': MUH_TLSF, 'linear': MUH_LIN}, vamh=dict(profiles=VAMH_ALL)),
+    'C14': dict(vamh=dict(profiles=['map', 'defrag', 'basic', 'pools']), eng={'devh': ['sync']}),
+    'C15': dict(eng={'dfh': None}, vamh=dict(profiles=['defrag'])),
+    'C16': dict(muh={'linear': MUH_LIN}),
+    'C17': dict(muh={'tlsf': MUH_TLSF, 'linear': MUH_LIN}),
+    'C18': dict(muh={'tlsf': MUH_TLSF, 'linear': MUH_LIN}),
+    'C19': dict(eng={'selh': None}, vamh=dict(profiles=['basic', 'limits'])),
+    'C20': dict(vamh=dict(profiles=['teardown', 'pools', 'basic', 'defrag'])),
 }
 
 def sh(cmd, timeout=3600, cwd=V, env=None):
@@ -41,9 +57,10 @@ def goenv():
 def ophash(lines):
     return hashlib.sha1('\n'.join(lines).encode()).hexdigest()[:12]
 
-OPK = ('A', 'Q', 'F', 'U', 'C', 'M')
+OPK = ('A', 'Q', 'F', 'U', 'C', 'M', 'LSC', 'LAL', 'LPG', 'LCF', 'LRU')
+OBSK = ('R', 'S', 'L', 'V', 'ST', 'DS', 'IT', 'ORACLE-FAIL', 'H', 'CFG', 'END')
 
-def split_histories(text):
+def split_histories(text, opk=OPK):
     """-> list of dict(head=[H,CFG], ops=[...], lines=[all lines incl observables], fails=[ORACLE lines])"""
     hs, cur = [], None
     for l in text.split('\n'):
@@ -55,7 +72,7 @@ def split_histories(text):
             w = l.split(' ', 1)[0]
             if w == 'CFG':
                 cur['head'].append(l)
-            elif w in OPK:
+            elif w in opk:
                 cur['ops'].append(l)
             elif w == 'ORACLE-FAIL':
                 cur['fails'].append(l)
@@ -120,7 +137,8 @@ class Check:
         if not os.path.exists(pfile):
             pr['missing'] = True
             return
-        rc, out, err = sh('coqdep -f _CoqProject 2>/dev/null', cwd=COQ)
+        files = [l.strip() for l in open(COQ + '/_CoqProject') if l.strip().endswith('.v') and os.path.exists(COQ + '/' + l.strip())]
+        rc, out, err = sh(['coqdep', '-Q', 'theories', 'Arsenal', '-Q', 'Props', 'Arsenal.Props'] + files, cwd=COQ)
         deps = {}
         for l in out.split('\n'):
             if ':' not in l:
@@ -271,12 +289,38 @@ class Check:
             self.cov['mismatches'] += 1
             ops = self.shrink(h['head'], h['ops'], lambda hd, o: self.history_mismatches(hd, o))
             text = '\n'.join(h['head'] + ops + ['END']) + '\n'
+            # the model and the code disagree here: search around this history for an input on which
+            # the property itself fails (random continuations of the diverging history, oracle on the code)
+            if self.extension_search(h['head'], ops, source):
+                return
             out, err = self.run_impl(text, 'final')
             open(self.rundir + '/final.trace', 'w').write(out)
             mout, rc, merr = self.run_model(self.rundir + '/final.trace')
             rp = '%s/replays/%s-corr-%s.trace' % (V, self.pid, ophash(ops))
             open(rp, 'w').write('# %s: correspondence broken (%s): implementation and Coq model disagree; no oracle of this property fails on this history\n# first divergence: impl %r model %r\n# --- implementation trace\n%s# --- model trace\n%s' % (self.pid, source, mismatch[1], mismatch[2], out, mout))
             self.violations.append((rp, 'correspondence mismatch impl=%r model=%r' % (mismatch[1], mismatch[2]), False))
+
+    def extension_search(self, head, ops, source):
+        cfgl = [l for l in head if l.startswith('CFG')]
+        if not cfgl or 'algo=leaf' in cfgl[0]:
+            return False
+        algo = 'linear' if 'algo=linear' in cfgl[0] else 'tlsf'
+        pf = self.rundir + '/prefix.ops'
+        open(pf, 'w').write('\n'.join(head + ops + ['END']) + '\n')
+        for prof in ('fill', 'basic', 'churn'):
+            rc, out, err = sh([B + '/muh', 'gen', '-algo', algo, '-seed', str(self.seed + 17), '-n', '150', '-ops', '40',
+                               '-profile', prof, '-prefix', pf], timeout=900)
+            for hh in split_histories(out):
+                mine = [l for l in hh['fails'] if ('property=%s ' % self.pid) in l and not self.known.match(self.pid, l)]
+                if mine:
+                    sig = re.search(r'sig=(\S+)', mine[0]).group(1)
+                    sops = self.shrink(hh['head'], hh['ops'], lambda hd, o: self.history_fails(hd, o, 'sig=' + sig))
+                    o2, e2 = self.run_impl('\n'.join(hh['head'] + sops + ['END']) + '\n', 'final')
+                    rp = '%s/replays/%s-%s.trace' % (V, self.pid, ophash(sops))
+                    open(rp, 'w').write('# %s: oracle failure on the real code, found by extending a history on which model and code diverge (%s)\n# %s\n' % (self.pid, source, mine[0]) + o2)
+                    self.violations.append((rp, mine[0], True))
+                    return True
+        return False
 
     def corr_text(self, impl_text, algo, prof, source):
         tp = '%s/%s-%s.trace' % (self.rundir, algo, prof)
@@ -298,6 +342,13 @@ class Check:
 
     def muh_component(self, algo, profiles):
         n, ops = (60, 70) if self.quick else (1500, 200)
+        if algo == 'leaf':
+            # pure helper functions (size classes, alignment, page test, conflict table, rounding):
+            # boundary sweep + random arguments, implementation vs. model
+            s = (self.seed * 31 + 7) % (1 << 62)
+            rc, out, err = sh([B + '/muh', 'gen', '-algo', 'leaf', '-seed', str(s), '-n', str(400 if self.quick else 20000)], timeout=3000)
+            self.corr_text(out, 'leaf', 'leaf', 'leaf functions seed=%d' % s)
+            return
         for pi, prof in enumerate(profiles):
             s = (self.seed * 1000003 + pi * 7919 + (0 if algo == 'tlsf' else 104729)) % (1 << 62)
             rc, out, err = sh([B + '/muh', 'gen', '-algo', algo, '-seed', str(s), '-n', str(n), '-ops', str(ops), '-profile', prof], timeout=3000)
@@ -322,6 +373,8 @@ class Check:
         picked = []
         for tp in sorted(glob.glob(self.rundir + '/*-*.trace')):
             algo = os.path.basename(tp).split('-')[0]
+            if algo not in ('tlsf', 'linear'):
+                continue
             hs = split_histories(open(tp).read())
             hs = [h for h in hs if len(h['ops']) <= 60]
             picked += [(algo, h) for h in hs[:max(1, n // 6)]]
@@ -357,6 +410,8 @@ class Check:
             self.corpus()
             for algo, profs in self.spec.get('muh', {}).items():
                 self.muh_component(algo, profs)
+            if self.spec.get('muh'):
+                self.muh_component('leaf', ['leaf'])
             self.in_coq()
         else:
             # model does not build: still search the implementation with the oracles
